@@ -52,7 +52,7 @@ theorem EncR.init_ok {ι : Type} [Stream ι] (P : Params) (C : EncPrims) (hC : E
     (inner : ι) (hin : InvI inner) :
     ∃ r, EncR.init P C inner = (r, .ok 0) ∧ EncRd.Inv P C p InvI absI ⟨r⟩ ∧
       r.chunkNo * P.chunk + r.cpos = 0 :=
-  EncR.seekStart_ok P C hC.tagLen p hI ⟨inner, [], 0, 0⟩ 0 hin (Nat.zero_le _)
+  EncR.seekStart_ok P C hC.tagLen p hI ⟨inner, [], 0, 0, false⟩ 0 hin (Nat.zero_le _)
     (by rw [Nat.zero_div]; decide)
 
 /-- **L1** for the encryption layer: verify-and-decrypt of the sealed stream is the plaintext. -/
